@@ -13,7 +13,7 @@ Ev == Traces[tid][l]
 NoRb == [done |-> FALSE, rows |-> [t \in Tables |-> <<>>], values_ok |-> TRUE, cols_ok |-> TRUE]
 TInit == /\ tid \in 1..Len(Traces) /\ l = 2 /\ rb = NoRb
          /\ cols = [t \in Tables |-> <<>>] /\ rows = [t \in Tables |-> <<>>] /\ ccols = cols /\ crows = rows
-         /\ seen = {} /\ count = 0 /\ batch = Traces[tid][1].batch /\ open = TRUE /\ nw = 0 /\ bounds = {0}
+         /\ seen = {} /\ count = 0 /\ batch = Traces[tid][1].batch /\ open = TRUE /\ nw = 0 /\ bounds = {0} /\ sess = 1
 Adopt == ccols' = Ev.ccols /\ crows' = Ev.crows
 Same  == ccols' = Ev.ccols /\ crows' = Ev.crows
 TStep == \/ /\ Ev.op = "write" /\ IF Mode = "contract" THEN WriteCore(Ev.d) /\ Adopt ELSE Write(Ev.d) /\ Same
@@ -21,6 +21,8 @@ TStep == \/ /\ Ev.op = "write" /\ IF Mode = "contract" THEN WriteCore(Ev.d) /\ A
          \/ /\ Ev.op = "flush" /\ IF Mode = "contract" THEN FlushCore /\ Adopt ELSE Flush /\ Same
             /\ UNCHANGED rb
          \/ /\ Ev.op = "close" /\ IF Mode = "contract" THEN CloseCore /\ Adopt ELSE Close /\ Same
+            /\ UNCHANGED rb
+         \/ /\ Ev.op = "reopen" /\ IF Mode = "contract" THEN ReopenCore /\ Adopt ELSE Reopen /\ Same
             /\ UNCHANGED rb
          \/ /\ Ev.op = "read" /\ rb' = [done |-> TRUE, rows |-> Ev.rows, values_ok |-> Ev.values_ok, cols_ok |-> Ev.cols_ok]
             /\ UNCHANGED vars
